@@ -36,12 +36,16 @@ func gen(g *vh.Gen) {
 	sd.GenSched(g)
 	sd.GenSched2(g)
 	sd.GenChurn(g)
+	sd.GenMDeliver(g)
 	sd.GenConc(g)
 }
 
 func exec(kind string, in []string) []string {
 	if kind == "sched" {
 		return sd.ExecSched(in)
+	}
+	if kind == "mdeliver" {
+		return sd.ExecMDeliver(in)
 	}
 	if kind == "churn" {
 		return sd.ExecChurn(in)
